@@ -57,8 +57,66 @@ fn run_ops<Q: OgreQueue<u32> + Sync + 'static>(case: &Case, q: &'static Q, locs:
     out
 }
 
+/// free-running stress (no scheduler): T threads hammer a small queue with bursts of enqueues of unique values and dequeues; afterwards the
+/// queue is drained by one thread. Output: [2 0 31 accepted_enqueues returned(dequeued + drained)] [2 0 32 returned_twice never_enqueued]
+/// [2 0 33 per_producer_order_violations 0] (+ [3 tid 2] per panic)
+fn stress_run<Q: OgreQueue<u32> + Sync + 'static>(q: &'static Q, case: &Case) -> Vec<i64> {
+    let threads = case.get("T", 4) as usize; let ops = case.get("ops", 3000) as usize; let seed = case.get("seed", 1) as u64;
+    let start = std::sync::Arc::new(std::sync::Barrier::new(threads));
+    let mut handles = vec![];
+    for tid in 0..threads {
+        let start = start.clone();
+        handles.push(std::thread::spawn(move || {
+            let mut x = seed.wrapping_mul(0x9E3779B97F4A7C15).wrapping_add(tid as u64 + 1);
+            let mut next = move || { x ^= x << 13; x ^= x >> 7; x ^= x << 17; x };
+            let (mut pushed, mut popped) = (vec![], vec![]);
+            start.wait();
+            let r = std::panic::catch_unwind(std::panic::AssertUnwindSafe(|| {
+                let mut j = 0u32;
+                while (j as usize) < ops {
+                    let burst = 1 + next() % 4; let push = if tid % 2 == 0 { next() % 4 != 0 } else { next() % 4 == 0 };
+                    for _ in 0..burst {
+                        if push { let v = ((tid as u32) << 20) | j; if q.enqueue(v).is_none() { pushed.push(v); } } else if let Some(v) = q.dequeue() { popped.push(v); }
+                        j += 1;
+                    }
+                }
+            }));
+            (pushed, popped, r.is_err())
+        }));
+    }
+    let (mut pushed, mut returned, mut out, mut disorder) = (vec![], vec![], vec![], 0i64);
+    for (tid, h) in handles.into_iter().enumerate() {
+        match h.join() {
+            Ok((a, b, p)) => {
+                // FIFO: what one consumer dequeued from one producer comes in that producer's enqueue order
+                let mut last = std::collections::HashMap::new();
+                for v in &b { let pr = v >> 20; if let Some(l) = last.insert(pr, *v) { if l >= *v { disorder += 1; } } }
+                pushed.extend(a); returned.extend(b); if p { out.extend_from_slice(&[3, tid as i64, 2]); }
+            },
+            Err(_) => out.extend_from_slice(&[3, tid as i64, 2]),
+        }
+    }
+    let drained = std::panic::catch_unwind(std::panic::AssertUnwindSafe(|| { let mut d = vec![]; for _ in 0..1000 { match q.dequeue() { Some(v) => d.push(v), None => break } } d }));
+    match drained { Ok(d) => returned.extend(d), Err(_) => out.extend_from_slice(&[3, 99, 2]) }
+    pushed.sort(); returned.sort();
+    let twice = returned.windows(2).filter(|w| w[0] == w[1]).count();
+    let never = returned.iter().filter(|v| pushed.binary_search(v).is_err()).count();
+    out.extend_from_slice(&[2, 0, 31, pushed.len() as i64, returned.len() as i64, 2, 0, 32, twice as i64, never as i64, 2, 0, 33, disorder, 0, 9]);
+    out
+}
+fn atomic_stress_n<const N: usize>(case: &Case) -> Vec<i64> {
+    let q: &'static atomic::NonBlockingQueue<u32, N, 0> = Box::leak(Box::new(atomic::NonBlockingQueue::new("q")));
+    stress_run(q, case)
+}
+fn fullsync_stress_n<const N: usize>(case: &Case) -> Vec<i64> {
+    let q: &'static full_sync::NonBlockingQueue<u32, N, 0> = Box::leak(Box::new(full_sync::NonBlockingQueue::new("q")));
+    stress_run(q, case)
+}
+
 pub fn run(case: &Case) -> Vec<i64> {
     match (case.gets("impl"), case.get("N", 4)) {
+        ("atomic_stress", 2) => atomic_stress_n::<2>(case), ("atomic_stress", 4) => atomic_stress_n::<4>(case),
+        ("fullsync_stress", 2) => fullsync_stress_n::<2>(case), ("fullsync_stress", 4) => fullsync_stress_n::<4>(case),
         ("atomic", 2) => atomic_n::<2>(case), ("atomic", 4) => atomic_n::<4>(case), ("atomic", 8) => atomic_n::<8>(case),
         ("fullsync", 2) => fullsync_n::<2>(case), ("fullsync", 4) => fullsync_n::<4>(case), ("fullsync", 8) => fullsync_n::<8>(case),
         (i, n) => panic!("zcq: unsupported impl={i} N={n}"),
